@@ -18,7 +18,7 @@ from py_gql import process_graphql_query
 from py_gql.exc import ResolverError
 from py_gql.execution import BlockingExecutor, Executor, Instrumentation, MultiInstrumentation
 from py_gql.execution.runtime import AsyncIORuntime, BlockingRuntime, ThreadPoolRuntime
-from py_gql.schema import Field, ID, Int, InterfaceType, ListType, NonNullType, ObjectType, Schema, Argument
+from py_gql.schema import ScalarType, Field, ID, Int, InterfaceType, ListType, NonNullType, ObjectType, Schema, Argument
 
 PLAIN, VALUE, RESOLVER_ERROR, UNEXPECTED = 0, 1, 2, 3
 KIND_NAMES = ("default-resolver", "custom-value", "custom-ResolverError", "custom-ValueError")
@@ -29,6 +29,7 @@ ROOT = {
     "l": [{"x": 1, "y": 2, "id": "l0"}, {"x": 3, "y": 4, "id": "l1"}],
     "n": {"x": 7, "y": 8, "id": "n1", "__typename__": "Obj"},
     "m1": {"x": 11, "y": 12, "id": "m1"}, "m2": {"x": 21, "y": 22, "id": "m2"},
+    "lf": [{}, {"id": "z"}, None, {"id": None}],          # falsy but non-null list entries: an empty object is an object
 }
 
 TEMPLATES = (
@@ -40,6 +41,8 @@ TEMPLATES = (
     ("mutation", "mutation { m1 { x } m2 { x y } m3 }"),
     ("wide", "{ a o { x y } l { x } n { id } }"),
     ("deep-list", "{ l { x y } o { y x } }"),
+    ("completion-error", "{ a sc o { x sc } b }"),          # `sc` resolves fine but its scalar's serialize raises ResolverError: a field error raised while COMPLETING
+    ("falsy-items", "{ lf { id __typename } a }"),
 )
 
 
@@ -88,6 +91,7 @@ def drain(loop):
 
 
 SHARED_RESOLVER = False      # harness switch: see World.resolver
+SAME_ROOT = False            # harness switch: the query and mutation root are the same object type
 UNEXPECTED_EXC = 0           # harness switch: which exception class a resolver of kind UNEXPECTED raises (index into unexpected_exceptions())
 
 
@@ -116,10 +120,12 @@ class World:
             raise unexpected_exceptions()[UNEXPECTED_EXC]("unexpected %s" % key)
         if key == "nn" and self.nn_null:
             return None
+        if key == "sc":
+            return "boom"
         return root[key]
 
     def resolver(self, key):
-        kind = self.kinds.get(key, PLAIN)
+        kind = self.kinds.get(key, VALUE if key == "sc" else PLAIN)
         if kind == PLAIN and not (key == "nn" and self.nn_null):
             return None
         if SHARED_RESOLVER:
@@ -157,16 +163,25 @@ class World:
         return r
 
     def schema(self):
+        def cannot_serialize(value):
+            raise ResolverError("cannot serialize %s" % (value,))
+        odd = ScalarType("Odd", serialize=cannot_serialize, parse=lambda v: v)
         node = InterfaceType("Node", [Field("id", ID)])
-        obj = ObjectType("Obj", [Field("x", Int, resolver=self.resolver("x")), Field("y", Int, resolver=self.resolver("y")), Field("id", ID)],
+        obj = ObjectType("Obj", [Field("x", Int, resolver=self.resolver("x")), Field("y", Int, resolver=self.resolver("y")), Field("id", ID),
+                                 Field("sc", odd, resolver=self.resolver("sc"))],
                          interfaces=[node])
         q = ObjectType("Query", [
+            Field("sc", odd, resolver=self.resolver("sc")), Field("lf", ListType(obj)),
             Field("a", Int, resolver=self.resolver("a")), Field("b", Int), Field("nn", NonNullType(Int), resolver=self.resolver("nn")),
             Field("o", obj, resolver=self.resolver("o")), Field("l", ListType(obj), resolver=self.resolver("l")),
             Field("n", node, resolver=self.resolver("n")),
         ])
-        m = ObjectType("Mutation", [Field("m1", obj, resolver=self.resolver("m1")), Field("m2", obj, resolver=self.resolver("m2")),
-                                    Field("m3", Int, resolver=self.resolver("m3"))])
+        mfields = [Field("m1", obj, resolver=self.resolver("m1")), Field("m2", obj, resolver=self.resolver("m2")), Field("m3", Int, resolver=self.resolver("m3"))]
+        if SAME_ROOT:
+            # schema { query: Root mutation: Root }: one object type serves as both roots
+            root = ObjectType("Query", list(q.fields) + mfields)
+            return Schema(root, mutation_type=root, types=[obj])
+        m = ObjectType("Mutation", mfields)
         return Schema(q, mutation_type=m, types=[obj])
 
 
